@@ -479,6 +479,8 @@ var pureList = map[string]bool{
 	"net/http.StatusText": true,
 	"unicode.IsSpace": true, "unicode.IsLetter": true, "unicode.IsDigit": true, "unicode.IsUpper": true, "unicode.IsLower": true,
 	"unicode/utf8.RuneLen": true, "unicode/utf8.RuneCountInString": true,
+	// assumption A16: the resolved tag of a decoded YAML node is a function of the node (pint never retags a node)
+	"(*gopkg.in/yaml.v3.Node).ShortTag": true,
 }
 
 // read-only accessors of the Prometheus query AST (assumption A5): they compute a value from the node and write nothing
